@@ -173,7 +173,7 @@ func (c09) Gen(tier string, seed int64, emit func([]Ev)) {
 					}
 					e["field"], e["arg"] = "seg.dur", W64(v)
 				case 5:
-					e["field"], e["arg"] = "seg.upidtype", []int{0, 1, 8, 9, 13, 13, 14, 15}[r.Intn(8)]
+					e["field"], e["arg"] = "seg.upidtype", []int{0, 1, 8, 9, 13, 13, 14, 15, -1, -1}[r.Intn(10)] // -1: the type it already has
 				case 6:
 					e["field"], e["arg"] = "seg.upid", B(rndBytes(r, r.Intn(14)))
 				case 7:
@@ -503,6 +503,10 @@ func c09Set(e Ev, st *c09State) {
 			d.SetDuration(gots.PTS(UW64(arg)))
 			e["got"] = W64(uint64(d.Duration()))
 		case "seg.upidtype":
+			if GI(arg) < 0 { // set again to the value the field already holds: must be a no-op
+				arg = int(d.UPIDType())
+				e["arg"] = arg
+			}
 			d.SetUPIDType(scte35.SegUPIDType(GI(arg)))
 			e["got"] = int(d.UPIDType())
 		case "seg.upid":
